@@ -12,7 +12,12 @@ Legal behaviours reproduced (the nondeterministic specification of the real pool
   * in-flight tasks may finish in any order;
   * workers make progress while the caller is still submitting, and while the caller blocks;
   * `as_completed(fs)` first yields the futures already finished at the call in an arbitrary
-    order (CPython iterates a set there), then the others in completion order.
+    order (CPython iterates a set there), then the others in completion order;
+  * a task body may itself use a pool (a model nested in a branch).  While that body waits, the
+    scheduler may start and run to completion any other startable task of any pool of the
+    universe — including a second forward of the very object the waiting body is inside — so two
+    calls on one object overlap: "call 1 has gathered some results, call 2 runs, call 1 resumes".
+    A task whose body is still on the stack cannot be finished (`running`).
 """
 
 from __future__ import annotations
@@ -76,6 +81,8 @@ class Sim:
         self.max_inflight = 0
         self.eager_bias = eager_bias
         self.timeouts_fired = 0
+        self.depth = 0  # task bodies currently on the stack
+        self.nested_starts = 0  # tasks of an outer pool started while a task body (with its own pool) was waiting
 
     # -- stepping ---------------------------------------------------------------------------
     def _options(self):
@@ -84,7 +91,8 @@ class Sim:
             if ex.queue and len(ex.inflight) < ex.workers:
                 opts.append(("start", ex, None))
             for t in ex.inflight:
-                opts.append(("finish", ex, t))
+                if not t.running:
+                    opts.append(("finish", ex, t))
         return opts
 
     def step(self, allow_idle: bool, where: str) -> bool:
@@ -102,7 +110,14 @@ class Sim:
             ex.inflight.append(task)
             self.max_inflight = max(self.max_inflight, len(ex.inflight))
             self.log.add("sched.start", {"task": task.tid})
-            task.run_body()
+            live = [e for e in self.executors if not e._shutdown]
+            if self.depth and live and ex is not live[-1]:
+                self.nested_starts += 1  # a waiting body's pool is not the innermost one: two bodies overlap in time
+            self.depth += 1
+            try:
+                task.run_body()
+            finally:
+                self.depth -= 1
         else:
             ex.inflight.remove(task)
             self.finish_order.append(task.tid)
@@ -133,20 +148,23 @@ class Sim:
 
 
 class _Task:
-    __slots__ = ("tid", "fn", "args", "kwargs", "future", "value", "exc", "ran")
+    __slots__ = ("tid", "fn", "args", "kwargs", "future", "value", "exc", "ran", "running")
 
     def __init__(self, tid, fn, args, kwargs, future):
         self.tid, self.fn, self.args, self.kwargs, self.future = tid, fn, args, kwargs, future
-        self.value, self.exc, self.ran = None, None, False
+        self.value, self.exc, self.ran, self.running = None, None, False, False
 
     def run_body(self):
         self.ran = True
         if not self.future.set_running_or_notify_cancel():
             return
+        self.running = True
         try:
             self.value = self.fn(*self.args, **self.kwargs)
         except BaseException as e:  # stored in the future, as the real pool does
             self.exc = e
+        finally:
+            self.running = False
 
     def publish(self):
         if self.future.cancelled():
